@@ -71,6 +71,9 @@ class BadBool:
     def __bool__(self) -> bool:
         raise FaultExc("bool")
 
+    def __repr__(self) -> str:
+        return "<BadBool>"
+
 
 def _as_list(x: Any) -> list:
     return list(x) if isinstance(x, (list, tuple)) else []
@@ -190,7 +193,13 @@ class Runtime:
         """Map an exception object to (class label, identity ordinal)."""
         for fid, f in self.faults.items():
             if exc is f:
-                return (type(f).__name__.replace("Fault", "").replace("Exc", "Exception"), fid)
+                label = {"FaultExc": "Exception", "FaultKI": "KI", "FaultGenExit": "GenExit", "FaultSysExit": "SysExit",
+                         "CancelledError": "Cancelled", "GeneratorExit": "GenExit"}.get(type(f).__name__,
+                                                                                         type(f).__name__)
+                return (label, fid)
+        if type(exc) is GeneratorExit and type(self.faults.get(0)) is GeneratorExit:
+            # closing a coroutine: CPython raises a fresh GeneratorExit in every delegated-to coroutine
+            return ("GenExit", 0)
         for c, inst in self.err_inst.items():
             if exc is inst:
                 return ("ErrInst", c)
@@ -209,6 +218,8 @@ class Runtime:
         if isinstance(exc, self.ic.ViolationError) and type(exc) is self.ic.ViolationError:
             return ("Violation", self._cid_from_text(msg, violation=True))
         if name in ("TypeError", "ValueError", "RuntimeError"):
+            if name != "TypeError" and exc.__cause__ is not None:
+                name += "C"   # raised by the library "from" the original exception
             return (name, self._cid_from_text(msg, violation=False))
         if name == "CancelledError":
             return ("Cancelled", 0)
@@ -227,7 +238,18 @@ class Runtime:
         if m:
             return int(m.group(1))
         m = self._RE_ID.search(msg)
-        return int(m.group(1)) if m else -1
+        if m:
+            return int(m.group(1))
+        # fall back on the location of the decorator ("File <generated source>, line N")
+        m = re.search(r"File (\S+), line (\d+)", msg)
+        if m and m.group(1) == self.filename:
+            src_lines = self.source.split("\n")
+            n = int(m.group(2))
+            if 1 <= n <= len(src_lines):
+                m2 = self._RE_ID.search(src_lines[n - 1])
+                if m2:
+                    return int(m2.group(1))
+        return -1
 
     # ------------------------------------------------------- user-code runtime
     def _enter(self) -> int:
@@ -236,7 +258,7 @@ class Runtime:
 
     def _maybe_fault(self, fid: int) -> None:
         fault = self.prog["fault"]
-        if fault["at"] > 0 and fault["at"] == fid:
+        if fid > 0 and (fault["at"] == fid or fid in fault.get("more", [])):
             exc = FAULT_CLASSES[fault["kind"]]("fault@{}".format(fid))
             self.faults[fid] = exc
             raise exc
